@@ -255,19 +255,22 @@ theorem block_operands (prog : List Ins) (e : Env) (blockIns : List Ins) (pc0 : 
     ∀ k, BlockRun prog e blockIns pc0 k st →
       ∃ valOf : Nat × Nat → Val,
         VSim valOf (symRun blockIns k) (st k).stack ∧
-        ∀ j, j < k → Forall₂ (Agree valOf) (argsAt blockIns j)
-          ((st j).stack.drop ((st j).stack.length - (blockIns[j]!).op.pops)) := by
+        (∀ j, j < k → Forall₂ (Agree valOf) (argsAt blockIns j)
+          ((st j).stack.drop ((st j).stack.length - (blockIns[j]!).op.pops))) ∧
+        (∀ j, j < k → ∀ i, i < (blockIns[j]!).op.pushes →
+          (st (j + 1)).stack[(st j).stack.length - (blockIns[j]!).op.pops + i]? = some (valOf (j, i))) := by
   intro k
   induction k with
   | zero =>
     intro _
-    exact ⟨fun _ => .int 0, ⟨(st 0).stack, [], by simp, Forall₂.nil⟩, fun j hj => absurd hj (by omega)⟩
+    exact ⟨fun _ => .int 0, ⟨(st 0).stack, [], by simp, Forall₂.nil⟩, fun j hj => absurd hj (by omega),
+      fun j hj => absurd hj (by omega)⟩
   | succ k ih =>
     intro hrun
     have hprev : BlockRun prog e blockIns pc0 k st :=
       ⟨by have := hrun.len; omega, fun j hj => hrun.code j (by omega), fun j hj => hrun.pcs j (by omega),
        fun j hj => hrun.steps j (by omega), fun j hj => hrun.dedicated j (by omega)⟩
-    obtain ⟨valOf, hsim, hargs⟩ := ih hprev
+    obtain ⟨valOf, hsim, hargs, hout⟩ := ih hprev
     have hi : prog[(st k).pc]? = some (blockIns[k]!) := by
       rw [hrun.pcs k (by omega)]; exact hrun.code k (by omega)
     obtain ⟨hpops, pushed, hlen, hstack⟩ :=
@@ -278,8 +281,26 @@ theorem block_operands (prog : List Ins) (e : Env) (blockIns : List Ins) (pc0 : 
       omega
     obtain ⟨h1, h2⟩ := vsim_step valOf (symRun blockIns k) (st k).stack (st (k + 1)).stack k (blockIns[k]!).op pushed
       hsim hfresh hpops hlen hstack
-    refine ⟨extend valOf k pushed, ?_, ?_⟩
+    refine ⟨extend valOf k pushed, ?_, ?_, ?_⟩
     · simpa [symRun] using h2
+    rotate_left
+    · intro j hj i hi'
+      by_cases hjk : j = k
+      · subst hjk
+        rw [hstack]
+        have hl : (List.take ((st j).stack.length - (blockIns[j]!).op.pops) (st j).stack).length =
+            (st j).stack.length - (blockIns[j]!).op.pops := by
+          rw [List.length_take]; omega
+        rw [List.getElem?_append_right (by omega), hl]
+        simp only [Nat.add_sub_cancel_left]
+        unfold extend
+        simp only [if_true]
+        have hi2 : i < pushed.length := by omega
+        simp [List.getElem?_eq_getElem hi2]
+      · have := hout j (by omega) i hi'
+        rw [this]
+        unfold extend
+        simp [hjk]
     · intro j hj
       have hkeep : ∀ c ∈ argsAt blockIns j, ∀ q, c = some q → extend valOf k pushed q = valOf q := by
         intro c hc q hq
